@@ -133,7 +133,7 @@ class Ctx(object):
             from . import attach as _attach
             if _attach.AMB['current']:
                 d['decimal_context'] = _attach.AMB['current']
-            if self.ambient and (self.ambient.get('hashseed') != '0' or self.ambient.get('cwd') != VERIF or self.ambient.get('optimize') or self.ambient.get('warnings') or self.ambient.get('env')):
+            if self.ambient and (self.ambient.get('hashseed') != '0' or self.ambient.get('cwd') != VERIF or self.ambient.get('optimize') or self.ambient.get('warnings') or self.ambient.get('env') or self.ambient.get('thread')):
                 d['ambient'] = self.ambient
             w.append(d)
         if self.replay:
